@@ -50,6 +50,13 @@ def fn(a):
     return a
 
 
+type SeqAlias[T] = Sequence[T]
+type MapAlias[V] = Mapping[str, V]
+type OptAlias[T] = T | None
+type PlainAlias = Sequence[int | str]
+ALIASES = {"Sequence": SeqAlias, "Mapping": MapAlias, "Optional": OptAlias}
+
+
 U = uuid.UUID("12345678123456781234567812345678")
 D = datetime.date(2024, 1, 2)
 DT = datetime.datetime(2024, 1, 2, 3, 4, 5)
@@ -75,6 +82,7 @@ LEAVES = [
     ("Inner", Inner, [Inner(x=1), Inner(x=2, y="z")], [{"x": 1}, 1, None]),
     ("G[int]", G[int], [G[int](item=3)], [G[str](item="s"), 3]),
     ("Node", Node, [Node(value=1), Node(value=1, child=Node(value=2))], [1, None]),
+    ("PlainAlias", PlainAlias, [[1, "a"], ()], [[1.5], "ab", 3]),
 ]
 
 
@@ -86,7 +94,7 @@ class T:
 
 
 def leaf_terms():
-    return [T(n, a, g, b) for n, a, g, b in LEAVES]
+    return [T(n, a, g, b, (tuple if n == "PlainAlias" else (lambda v: v))) for n, a, g, b in LEAVES]
 
 
 def is_seq(v):
@@ -205,6 +213,8 @@ def _leaf_conf(t, v):
         return isinstance(v, G[int])
     if n == "Node":
         return isinstance(v, Node)
+    if n == "PlainAlias":
+        return is_seq(v) and all(isinstance(x, (int, str)) for x in v)
     return False
 
 
@@ -239,6 +249,11 @@ def terms(depth, rng, budget):
         for kind in ("Sequence", "tuple...", "Set", "frozenset", "Mapping", "Optional"):
             for a in level:
                 nxt.append(attach_checks(build(kind, [a]), kind, [a]))
+                if kind in ALIASES and rng.random() < 0.5:
+                    # the same term reached through a parametrised type alias (type SeqAlias[T] = Sequence[T]; SeqAlias[a])
+                    t = attach_checks(build(kind, [a]), kind, [a])
+                    t.name, t.ann = f"{ALIASES[kind].__name__}[{a.name}]", ALIASES[kind][a.ann]
+                    nxt.append(t)
         for kind in ("tuple2", "Union"):
             for _ in range(len(level)):
                 a, b = rng.choice(level), rng.choice(level)
@@ -248,6 +263,19 @@ def terms(depth, rng, budget):
         out += nxt
         level = nxt
     return out
+
+
+def mutable_inside(x, depth=0):
+    """a list / set / dict anywhere inside a stored value (through tuples, frozensets and mapping proxies)"""
+    if isinstance(x, (list, set, dict, bytearray)):
+        return True
+    if depth > 6:
+        return False
+    if isinstance(x, (tuple, frozenset)):
+        return any(mutable_inside(e, depth + 1) for e in x)
+    if isinstance(x, MappingProxyType):
+        return any(mutable_inside(e, depth + 1) for e in x.values())
+    return False
 
 
 def check_specialisation(t):
@@ -309,6 +337,8 @@ def check_term(t):
         if not _eq(got_cmp, want_cmp) or (isinstance(want, tuple) and not isinstance(got, tuple)) \
                 or (isinstance(want, frozenset) and not isinstance(got, frozenset)):
             return f"{t.name}: value {v!r} was stored as {got!r}, expected {want!r}"
+        if "Any" not in t.name and mutable_inside(got):
+            return f"{t.name}: value {v!r} is stored as {got!r}, which still holds a mutable container of the caller"
         if isinstance(v, (list, set, dict)) and got is v and "Any" not in t.name:   # an Any alternative keeps the value as it is
             return f"{t.name}: the caller's mutable container is stored by reference"
     for v in t.bad:
